@@ -290,7 +290,7 @@ def check_trace(tr, drv, max_frames=80, mask=None, inv_mask=None):
                 res['other'] += 1
             else:
                 res['inv_frames'] += 1
-            if want_jrn:
+            if want_jrn and k < 80:       # the history grows with the run: the journey test is quadratic in it
                 hist.extend(norm([enc_rec(e) for e in f['cev'] if e[0] == 'Record']))
                 spawned.extend([[e[2], e[1]] for e in f['cev'] if e[0] == 'Spawn'])
                 jv = jrn(enc_state(prev, cfg, nxt, now))
